@@ -60,6 +60,10 @@ pub struct BlindCase {
     /// party (by position in the order) that forgets its result before sending and redoes its step
     pub amnesia: Option<usize>,
     pub unconstrained: bool,
+    /// before the party at this position acts, the PSET it receives carries an additional all-zero scalar (a
+    /// legal scalar: the contribution of a party whose blinders cancel); the balance must be unaffected
+    #[serde(default)]
+    pub zero_scalar_before: Option<usize>,
 }
 
 impl BlindCase {
@@ -84,6 +88,7 @@ impl BlindCase {
             hops: (0..n_parties + 1).map(|_| HopPlan::draw(p, faulty)).collect(),
             amnesia: if faulty && p.chance(1, 3) { Some(p.usize_below(n_parties)) } else { None },
             unconstrained: false,
+            zero_scalar_before: if faulty && p.chance(1, 4) { Some(p.usize_below(n_parties)) } else { None },
         }
     }
 }
@@ -245,6 +250,10 @@ pub fn execute(case: &BlindCase, ctx: &mut Ctx) {
     let owner_of_output = |ps: &Pset, oi: usize| -> Option<usize> { ps.outputs()[oi].blinder_index.map(|b| f.owners[b as usize]) };
     for (pos, party) in order.iter().enumerate() {
         let last = pos + 1 == order.len();
+        if case.zero_scalar_before == Some(pos) && !ps.global.scalars.contains(&gen::ZERO_TWEAK) {
+            ps.global.scalars.push(gen::ZERO_TWEAK);
+            ctx.fault("zero_scalar", 1);
+        }
         let secrets: HashMap<usize, TxOutSecrets> = (0..f.owners.len()).filter(|i| f.owners[*i] == *party).map(|i| (i, f.secrets[i])).collect();
         let before = ps.clone();
         let attempts = if case.amnesia == Some(pos) { 2 } else { 1 };
@@ -353,6 +362,9 @@ pub fn shrink(case: &BlindCase, _v: &Violation) -> Vec<BlindCase> {
     let mut out = Vec::new();
     if case.amnesia.is_some() {
         out.push(BlindCase { amnesia: None, ..case.clone() });
+    }
+    if case.zero_scalar_before.is_some() {
+        out.push(BlindCase { zero_scalar_before: None, ..case.clone() });
     }
     if case.hops.iter().any(|h| *h != HopPlan::perfect()) {
         out.push(BlindCase { hops: case.hops.iter().map(|_| HopPlan::perfect()).collect(), ..case.clone() });
